@@ -291,10 +291,57 @@ def pretty_repr_registered(chk):
         P._default_config = saved
 
 
+def entry_points_narrow(chk):
+    """The entry points at the narrow end of the settings (widths and ribbons of 1..6 columns, where empty containers
+    are broken and lines without any text occur): pprint / cpprint (colour off) / PrettyPrinter write exactly what
+    pformat returns, plus the end string. (The history domain of Config.tla has widths 24 / 79 only.)"""
+    import colorful
+    vals = [{}, [{}], {'k': {}}, [[]], [()], {'a': [], 'b': {}}, [set(), frozenset()], [[{}], {1: {}}], ('',), {'': ''},
+            [1, [2, [3, [{}]]]], {'k': 'v' * 8, 'e': {}}]
+    n = 0
+    for v in vals:
+        for w in (1, 2, 3, 5, 8):
+            for rw in (1, 2, 5, 200):
+                for ind in (1, 2, 4):
+                    kw = {'width': w, 'ribbon_width': rw, 'indent': ind}
+                    n += 1
+                    desc = {'value': repr(v), 'settings': kw}
+                    try:
+                        with warnings.catch_warnings():
+                            warnings.simplefilter('ignore')
+                            want = P.pformat(v, **kw)
+                            outs = {}
+                            s_ = io.StringIO()
+                            P.pprint(v, stream=s_, end='<END>', **kw)
+                            outs['pprint'] = s_.getvalue()
+                            s_ = io.StringIO()
+                            mode = colorful.colorful.colormode
+                            colorful.disable()
+                            try:
+                                P.cpprint(v, stream=s_, end='<END>', **kw)
+                            finally:
+                                colorful.colorful.colormode = mode
+                            outs['cpprint (colour off)'] = s_.getvalue()
+                            s_ = io.StringIO()
+                            P.PrettyPrinter(stream=s_, **kw).pprint(v)
+                            outs['PrettyPrinter.pprint'] = s_.getvalue()[:-1] + '<END>' if s_.getvalue().endswith('\n') else s_.getvalue()
+                            outs['PrettyPrinter.pformat'] = P.PrettyPrinter(**kw).pformat(v) + '<END>'
+                    except Exception as e:  # noqa
+                        chk.violation('C18.entry-points', 'an entry point raised %r for %r' % (e, desc), desc)
+                        continue
+                    for name, got in outs.items():
+                        if got != want + '<END>':
+                            chk.violation('C18.entry-points', '%s wrote %r, pformat + end is %r (%r)' % (name, got, want + '<END>', desc),
+                                          dict(desc, entry=name))
+    chk.cov['evaluations'] += 5 * n
+    chk.stage('entry points at narrow settings', prints=5 * n)
+
+
 def check_c18(chk, args):
     q = chk.tier == 'quick'
     rng = chk.rng
     pretty_repr_registered(chk)
+    entry_points_narrow(chk)
     table, texts = reference_table()
     chk.cov['reference_texts_distinct'] = len(texts)
     if len(texts) < 48:
